@@ -1,7 +1,11 @@
-(* Proofs about Model/Cron.v (property C17): a global invariant over arbitrary step lists, any number of
-   processors and triggers, any `nxt` with t < nxt t, under the hypothesis that trigger names are unambiguous
-   (no two rows with the same name one of which is visible to the other's project).  Without that hypothesis the
-   faithful model refutes the property: see the `_refuted` lemmas at the end. *)
+(* Proofs about Model/Cron.v (property C17): a global invariant over arbitrary step lists (including other
+   processors acting between the SELECT and the DELETE / UPDATE of one database call: Sel / Wr), any number of
+   processors and triggers, any `nxt` with t < nxt t, under the hypotheses that
+     - a write that changed no row reports 0 (drc = true, urm = true: the compare-and-swap shape of
+       delete_cron_trigger / update_cron_trigger, instantiated in Properties/C17.v from Gen/CronCfg.v), and
+     - trigger names are unambiguous (no two rows with the same name one of which is visible to the other's project;
+       only needed when rows are looked up by name).
+   Without either hypothesis the faithful model refutes the property: see the lemmas at the end. *)
 From Coq Require Import List NArith ZArith Bool Arith Lia ZifyBool ZifyNat ZifyN.
 Require Import Mistral.Model.Cron.
 Import ListNotations.
